@@ -217,7 +217,7 @@ def _init():
 
 
 # ---- program generation (descriptors only; JSON) ------------------------------------------------
-LIB_OPS = ["exact_predict", "hetero_predict", "svgp_predict_fantasy", "ciq_predict", "cylindrical_kernel", "lazy_kernel_ops", "keops_kernel"]
+LIB_OPS = ["exact_predict", "hetero_predict", "svgp_predict_fantasy", "ciq_predict", "cylindrical_kernel", "lazy_kernel_ops", "keops_kernel", "exact_predict_raises", "svgp_predict_raises"]
 
 
 def _lib_build(op):
@@ -243,6 +243,56 @@ def _lib_build(op):
     if op == "exact_predict":
         m = GP(X, y, L.GaussianLikelihood(), K.ScaleKernel(K.RBFKernel())).double().eval()
         return lambda: m.likelihood(m(xs)).variance
+    if op in ("exact_predict_raises", "svgp_predict_raises"):
+        # library operations that RAISE half-way (non-finite training inputs / a kernel that throws) and whose error the caller
+        # catches: blocks the library entered on the way are unwound like any other
+        class Boomed(Exception):
+            pass
+
+        class BoomKernel(K.RBFKernel):
+            def forward(s, x1, x2, diag=False, **params):
+                if x1.shape[-2] != x2.shape[-2] or not torch.equal(x1, x2):
+                    raise Boomed("kernel refuses cross-covariances")
+                return super().forward(x1, x2, diag=diag, **params)
+
+        if op == "exact_predict_raises":
+            Xn = X.clone()
+            Xn[2, 0] = float("nan")
+            m1 = GP(Xn, y, L.GaussianLikelihood(), K.ScaleKernel(K.RBFKernel())).double().eval()
+            m2 = GP(X, y, L.GaussianLikelihood(), K.ScaleKernel(BoomKernel())).double().eval()
+
+            def run_r():
+                raised = 0
+                for mm in (m1, m2):
+                    try:
+                        mm(xs).variance
+                    except Exception:
+                        raised += 1
+                return raised
+
+            return run_r
+        V = gpytorch.variational
+
+        class VGb(gpytorch.models.ApproximateGP):
+            def __init__(s):
+                super().__init__(V.VariationalStrategy(s, X[:3].clone(), V.CholeskyVariationalDistribution(3), learn_inducing_locations=True))
+                s.mean_module, s.covar_module = gpytorch.means.ConstantMean(), K.ScaleKernel(K.RBFKernel())
+
+            def forward(s, x):
+                if x.shape[-2] > 3:
+                    raise Boomed("prior refuses")
+                return gpytorch.distributions.MultivariateNormal(s.mean_module(x), s.covar_module(x))
+
+        mv = VGb().double().eval()
+
+        def run_v():
+            try:
+                mv(xs).variance
+            except Exception:
+                return 1
+            return 0
+
+        return run_v
     if op == "hetero_predict":
         noise_model = GP(X, y.abs().log(), L.GaussianLikelihood(), K.RBFKernel()).double()
         lik = L.gaussian_likelihood._GaussianLikelihoodBase(gpytorch.likelihoods.noise_models.HeteroskedasticNoise(noise_model))
@@ -421,6 +471,11 @@ def cases(tier, seed):
     for n in names:
         for ai in range(min(2, len(ch[n]))):
             yield {"gen": "threads", "cls": n, "arg": ai, "prog": [N(n, ai)]}
+    # 4d. warnings turned into errors (python -W error, pytest filterwarnings=error): a setting that warns when it is constructed
+    #     or entered raises there - nothing it wrote may stay behind, also not inside an enclosing block of the same setting
+    for n in names:
+        for ai in range(min(2, len(ch[n]))):
+            yield {"gen": "warn-error", "cls": n, "arg": ai, "prog": [N(n, ai)]}
     # 5. informational: re-entered, pre-constructed context objects (outside the quantifier)
     for n in names:
         yield {"prog": [N(n, 0)], "gen": "reenter-info"}
@@ -613,6 +668,55 @@ def run_case(case, ctx):
     ctx.expect("start_equals_defaults", snapshot() == _S["defaults"], "harness reset failed")
     if case["gen"] == "library-call":
         return _library_call(case, ctx)
+    if case["gen"] == "warn-error":
+        import warnings
+
+        name = case["cls"]
+        c = _S["bycls"][name]
+        kw = _dec(_S["choices"][name][case["arg"]])
+        mk = lambda: c(kw["value"]) if _S["kinds"][name] == "value" else c(**kw)
+        raised = False
+        with warnings.catch_warnings():
+            warnings.simplefilter("error")
+            try:
+                with mk():
+                    pass
+            except Warning:
+                raised = True
+            except ValueError as e:
+                if "not supported" not in str(e):
+                    raise
+        end = snapshot()
+        bad = [k for k in end if end[k] != _S["defaults"][k]]
+        ctx.expect("end_equals_defaults", not bad, f"{name}({_enc(kw)}) under warnings-as-errors (raised={raised}): " + "; ".join(f"{k}={end[k]!r} default={_S['defaults'][k]!r}" for k in bad[:4]), fields=bad, owners=sorted({_owner(k) for k in bad}))
+        # the same inside an enclosing block of the setting (first argument choice): the enclosing block's values survive
+        kw0 = _dec(_S["choices"][name][0])
+        try:
+            outer = c(kw0["value"]) if _S["kinds"][name] == "value" else c(**kw0)
+            with warnings.catch_warnings():
+                warnings.simplefilter("ignore")
+                with outer:
+                    before = snapshot()
+                    with warnings.catch_warnings():
+                        warnings.simplefilter("error")
+                        try:
+                            with mk():
+                                pass
+                        except Warning:
+                            raised = True
+                    after = snapshot()
+            bad = [k for k in before if after[k] != before[k]]
+            ctx.expect("inner_value_visible", not bad, f"{name}: a nested block that failed under warnings-as-errors changed the enclosing block's values: " + "; ".join(f"{k}={after[k]!r} was {before[k]!r}" for k in bad[:4]), fields=bad, owners=sorted({_owner(k) for k in bad}))
+        except ValueError as e:
+            if "not supported" not in str(e):
+                raise
+        end = snapshot()
+        bad = [k for k in end if end[k] != _S["defaults"][k]]
+        ctx.expect("end_equals_defaults", not bad, f"{name} nested under warnings-as-errors: " + "; ".join(f"{k}={end[k]!r}" for k in bad[:4]), fields=bad, owners=sorted({_owner(k) for k in bad}))
+        ctx.hit("info:warning_raised" if raised else "info:no_warning")
+        ctx.cell(("warn-error", name, case["arg"]), nontrivial=True)
+        _reset()
+        return
     if case["gen"] == "threads":
         import threading
 
